@@ -313,7 +313,8 @@ def _merge(parts: list) -> dict:
             else:
                 m["notes"].setdefault(k, v)
         for name, a in p.get("anchors", {}).items():
-            t = m["anchors"].setdefault(name, {"calls": 0, "lines_hit": set(), "lines_total": a.get("lines_total", 0)})
+            t = m["anchors"].setdefault(name, {"calls": 0, "lines_hit": set(), "lines_total": a.get("lines_total", 0), "resolved": True})
+            t["resolved"] = t["resolved"] and a.get("resolved", True)
             t["calls"] += a.get("calls", 0)
             t["lines_hit"].update(a.get("lines_hit", []))
             t["lines_total"] = max(t["lines_total"], a.get("lines_total", 0))
@@ -404,7 +405,11 @@ def run_parent(pid: str, tier: str, workers: int | None = None) -> int:
             if have < k:
                 reasons.append(f"required class/monitor '{cls}' observed {have} < {k}")
         for a in getattr(mod, "ANCHORS_REQUIRED", getattr(mod, "ANCHORS", [])):
-            if merged["anchors"].get(a, {}).get("calls", 0) == 0:
+            info = merged["anchors"].get(a, {})
+            if not info.get("resolved", True):
+                # the anchored function no longer exists under that name (refactoring): recorded, the behavioural monitors carry the verdict
+                merged["notes"].setdefault("anchors_not_found", []).append(a)
+            elif info.get("calls", 0) == 0:
                 reasons.append(f"anchored mechanism {a} was never reached")
         if merged["evaluations"] == 0:
             reasons.append("no monitored execution at all")
@@ -447,7 +452,7 @@ def run_parent(pid: str, tier: str, workers: int | None = None) -> int:
         "required": (getattr(mod, "REQUIRED", {}) if mod else {}),
         "monitors": {k: {"evaluations": v, "firings": merged["firings"].get(k, 0)} for k, v in sorted(merged["monitors"].items())},
         "firings": dict(merged["firings"]),
-        "anchors": {k: {"calls": a["calls"], "lines_hit": len(a["lines_hit"]), "lines_total": a["lines_total"]}
+        "anchors": {k: {"calls": a["calls"], "lines_hit": len(a["lines_hit"]), "lines_total": a["lines_total"], "resolved": a.get("resolved", True)}
                     for k, a in sorted(merged["anchors"].items())},
         "workloads": dict(merged["workloads"]),
         "known_findings_seen": dict(known_seen),
